@@ -151,6 +151,15 @@ Theorem C15_commitment_script : forall root, length root = 32%nat ->
 Proof. exact commit_spk_32. Qed.
 Print Assumptions C15_commitment_script.
 
+(* FINDING (API/documentation, not reached by mine_block): the parameter is called witness_merkle_root_hash and
+   documented as "witness merkle root", but the bytes are written verbatim: passing the bare witness root yields the
+   BIP141 commitment of that root only for a fixed point of r |-> hash256(r ++ reserved) *)
+Theorem C15_commitment_arg_is_hash_not_root : forall (sha256 : bytes -> bytes) root, length root = 32%nat ->
+  (commit_spk (Some root) = Ok (Some (commitment_script (commitment_hash sha256 root witness_reserved_value)))
+   <-> commitment_hash sha256 root witness_reserved_value = root).
+Proof. exact commitment_arg_is_the_hash. Qed.
+Print Assumptions C15_commitment_arg_is_hash_not_root.
+
 (* the argument mine_block passes is Double-SHA256(witness root | witness reserved value), the witness root being
    the merkle root over [00..00 (coinbase)] ++ wtxids: with C15_commitment_script this is BIP141's structure *)
 Theorem C15_commitment_bip141 : forall (sha256 : bytes -> bytes) wtxids,
